@@ -640,3 +640,48 @@ def mapvals_ok(eng, m):
     """every value of the label -> integer mapping is a non-negative int (part of the C14 invariant)"""
     ver = eng.store_of(m)
     return SV(T.nonnegvals(ver.dom, ver.val), "bool")
+
+
+# ------------------------------------------------------------------ substitution of values (C18)
+@spec
+def valslinked(eng, values, spin=False):
+    """the ghost assignment takes the value values[i] on every label i of the dict `values`"""
+    ver = eng.store_of(values)
+    sp = bool(spin)
+    eng.value_spin = sp
+    return SV(T.vlinked(z3.BoolVal(sp), ver.dom, ver.dom, ver.val), "bool")
+
+
+@spec
+def connlinked(eng, nodes, connections, spin=False):
+    """the ghost assignment takes the value connections.get(i, 0) on every label i outside `nodes`"""
+    sp = bool(spin)
+    eng.value_spin = sp
+    S = _lset(eng, nodes)
+    notS = z3.Map(z3.Not(z3.Bool("_p")).decl(), S)
+    if connections is None:
+        cdom, cval = z3.K(T.Label, z3.BoolVal(False)), z3.K(T.Label, z3.RealVal(0))
+    else:
+        ver = eng.store_of(connections)
+        cdom, cval = ver.dom, ver.val
+    return SV(T.vlinked(z3.BoolVal(sp), notS, cdom, cval), "bool")
+
+
+@spec
+def keys_avoid(eng, d, s):
+    """no key of the dict contains a label of the set s"""
+    S = _lset(eng, s)
+    notS = z3.Map(z3.Not(z3.Bool("_p")).decl(), S)
+    return SV(FO.pfold_subset(eng, eng.store_of(d), notS), "bool")
+
+
+@spec
+def isspin(eng, o):
+    return isinstance(o, PObj) and is_spin_class(eng, o.cls)
+
+
+@spec
+def denlike(eng, ref, d):
+    """denotation of d read in the domain (boolean / spin) of the model `ref` (boolean for a plain dict)"""
+    spin = isinstance(ref, PObj) and is_spin_class(eng, ref.cls)
+    return SV(FO.fold(eng, eng.store_of(d), _g(eng, "sden" if spin else "bden")), "real")
